@@ -127,6 +127,12 @@ func gen03(c *hmain.Ctx) {
 		if only != "" && !strings.Contains(stream, only) {
 			return
 		}
+		if os.Getenv("C03_GENCHECK") != "" { // development aid: check the generated case texts, execute nothing
+			if why := genCheck(cs); why != "" {
+				fmt.Fprintf(os.Stderr, "GENCHECK %s: %s\n", stream, why)
+			}
+			return
+		}
 		jobs = append(jobs, &job{stream: stream, which: which, cs: cs, nontr: nontr})
 	}
 
@@ -519,4 +525,32 @@ func gen03(c *hmain.Ctx) {
 		}
 		c.W.Count(fmt.Sprintf("phases=%d", len(phases)))
 	}
+}
+
+// genCheck: every line of a generated case must be renderable with the id it gets by its position in the case (caseB numbers
+// the lines in the order they are BUILT; a generator that builds a later phase first gives a line the length of another id)
+func genCheck(cs hx.Sx) string {
+	cfg, phases := decodeCase(cs)
+	cri := decodeCfg(cfg).front == 1
+	chk := func(o fileOp) string {
+		for _, l := range o.lines {
+			if _, ok := render(l, cri); !ok {
+				return fmt.Sprintf("line %d: length %d < %d", l.id, l.length, minLen(l, cri))
+			}
+		}
+		return ""
+	}
+	for _, ph := range phases {
+		for _, o := range ph.down {
+			if w := chk(o); w != "" {
+				return w
+			}
+		}
+		for _, l := range ph.live {
+			if w := chk(l.op); w != "" {
+				return w
+			}
+		}
+	}
+	return ""
 }
